@@ -29,6 +29,12 @@ theorem syms_map_copy (fx : Bool) (own : List Nat) (no so : Nat) (F : Forest) :
     congr 1
     cases h : n.sym <;> simp [copyNode, h]
 
+theorem attrs_map_copy (fx : Bool) (own : List Nat) (no so : Nat) (F : Forest) :
+    (F.map (copyNode fx own no so)).attrs = F.attrs := by
+  induction F with
+  | nil => rfl
+  | cons n k r ihk ihr => simp [Forest.map, Forest.attrs, ihk, ihr, copyNode]
+
 theorem tsyms_map_copy (fx : Bool) (own : List Nat) (no so : Nat) (F : Forest) :
     (F.map (copyNode fx own no so)).tsyms = F.tsyms.map (rhoT fx own so) := by
   induction F with
@@ -37,6 +43,91 @@ theorem tsyms_map_copy (fx : Bool) (own : List Nat) (no so : Nat) (F : Forest) :
     simp only [Forest.map, Forest.tsyms, ihk, ihr, List.map_append]
     congr 1
     cases h : n.tsym <;> simp [copyNode, h]
+
+theorem ids_map_ecopy (fx : Bool) (own : List Nat) (no so : Nat) (F : Forest) :
+    (F.map (copyENode fx own no so)).ids = F.ids.map (· + no) := by
+  induction F with
+  | nil => rfl
+  | cons n k r ihk ihr => simp [Forest.map, Forest.ids, ihk, ihr, copyENode]
+
+theorem syms_map_ecopy (fx : Bool) (own : List Nat) (no so : Nat) (F : Forest) :
+    (F.map (copyENode fx own no so)).syms = F.syms.map (rhoT fx own so) := by
+  induction F with
+  | nil => rfl
+  | cons n k r ihk ihr =>
+    simp only [Forest.map, Forest.syms, ihk, ihr, List.map_append]
+    congr 1
+    cases h : n.sym <;> simp [copyENode, h]
+
+theorem tsyms_map_ecopy (fx : Bool) (own : List Nat) (no so : Nat) (F : Forest) :
+    (F.map (copyENode fx own no so)).tsyms = F.tsyms.map (rhoT fx own so) := by
+  induction F with
+  | nil => rfl
+  | cons n k r ihk ihr =>
+    simp only [Forest.map, Forest.tsyms, ihk, ihr, List.map_append]
+    congr 1
+    cases h : n.tsym <;> simp [copyENode, h]
+
+theorem uses_map_ecopy (fx : Bool) (own : List Nat) (no so : Nat) (F : Forest) :
+    (F.map (copyENode fx own no so)).uses = F.uses.map (rhoT fx own so) := by
+  simp [Forest.uses, syms_map_ecopy, tsyms_map_ecopy]
+
+theorem rhoT_false (own : List Nat) (off : Nat) : rhoT false own off = id := by
+  funext s; simp [rhoT]
+
+/-- the view of an expression forest depends only on the names of the symbols it uses -/
+theorem viewE_congr (nm nm' : Nat → Nat) (F : Forest) (h : ∀ d ∈ F.uses, nm' d = nm d) :
+    viewE nm' F = viewE nm F := by
+  induction F with
+  | nil => rfl
+  | cons n k r ihk ihr =>
+    simp only [Forest.uses, Forest.syms, Forest.tsyms, List.mem_append] at h
+    have hk := ihk (fun d hd => h d (by
+      simp only [Forest.uses, List.mem_append] at hd
+      rcases hd with hd | hd
+      · exact Or.inl (Or.inr (Or.inl hd))
+      · exact Or.inr (Or.inr (Or.inl hd))))
+    have hr := ihr (fun d hd => h d (by
+      simp only [Forest.uses, List.mem_append] at hd
+      rcases hd with hd | hd
+      · exact Or.inl (Or.inr (Or.inr hd))
+      · exact Or.inr (Or.inr (Or.inr hd))))
+    have hs : n.sym.map nm' = n.sym.map nm := by
+      cases hx : n.sym with
+      | none => rfl
+      | some x => simp [h x (Or.inl (Or.inl (by simp [hx])))]
+    have ht : n.tsym.map nm' = n.tsym.map nm := by
+      cases hx : n.tsym with
+      | none => rfl
+      | some x => simp [h x (Or.inr (Or.inl (by simp [hx])))]
+    simp only [viewE, hk, hr, hs, ht]
+
+theorem viewE_map_ecopy (nm nm' : Nat → Nat) (fx : Bool) (own : List Nat) (no so : Nat) (F : Forest)
+    (h : ∀ d ∈ F.uses, nm' (rhoT fx own so d) = nm d) :
+    viewE nm' (F.map (copyENode fx own no so)) = viewE nm F := by
+  induction F with
+  | nil => rfl
+  | cons n k r ihk ihr =>
+    simp only [Forest.uses, Forest.syms, Forest.tsyms, List.mem_append] at h
+    have hk := ihk (fun d hd => h d (by
+      simp only [Forest.uses, List.mem_append] at hd
+      rcases hd with hd | hd
+      · exact Or.inl (Or.inr (Or.inl hd))
+      · exact Or.inr (Or.inr (Or.inl hd))))
+    have hr := ihr (fun d hd => h d (by
+      simp only [Forest.uses, List.mem_append] at hd
+      rcases hd with hd | hd
+      · exact Or.inl (Or.inr (Or.inr hd))
+      · exact Or.inr (Or.inr (Or.inr hd))))
+    have hs : (n.sym.map (rhoT fx own so)).map nm' = n.sym.map nm := by
+      cases hx : n.sym with
+      | none => rfl
+      | some x => simp [h x (Or.inl (Or.inl (by simp [hx])))]
+    have ht : (n.tsym.map (rhoT fx own so)).map nm' = n.tsym.map nm := by
+      cases hx : n.tsym with
+      | none => rfl
+      | some x => simp [h x (Or.inr (Or.inl (by simp [hx])))]
+    simp only [Forest.map, viewE, copyENode, hk, hr, hs, ht]
 
 /-! ## the subtree found by identity is part of the forest -/
 
@@ -131,59 +222,99 @@ theorem rho_mem {own : List Nat} {off s : Nat} (h : s ∈ own) : rho own off s =
 theorem rho_not_mem {own : List Nat} {off s : Nat} (h : s ∉ own) : rho own off s = s := by
   simp [rho, h]
 
-theorem name_copy_old (fx : Bool) (W : World) (r : Nat) {s : Nat} (h : s < W.nsym) :
-    (copy fx W r).name s = W.name s := by
+theorem name_copy_old (m : Mode) (W : World) (r : Nat) {s : Nat} (h : s < W.nsym) :
+    (copy m W r).name s = W.name s := by
   simp [copy, isNew_old h]
 
-theorem deps_copy_old (fx : Bool) (W : World) (r : Nat) {s : Nat} (h : s < W.nsym) :
-    (copy fx W r).deps s = W.deps s := by
+theorem links_copy_old (m : Mode) (W : World) (r : Nat) {s : Nat} (h : s < W.nsym) :
+    (copy m W r).links s = W.links s := by
   simp [copy, isNew_old h]
 
-theorem name_copy_rho (fx : Bool) (W : World) (r : Nat) {s : Nat} (h : s < W.nsym) :
-    (copy fx W r).name (rho (findIn r W.trees).owned W.nsym s) = W.name s := by
+theorem bounds_copy_old (m : Mode) (W : World) (r : Nat) {s : Nat} (h : s < W.nsym) :
+    (copy m W r).bounds s = W.bounds s := by
+  simp [copy, isNew_old h]
+
+theorem init_copy_old (m : Mode) (W : World) (r : Nat) {s : Nat} (h : s < W.nsym) :
+    (copy m W r).init s = W.init s := by
+  simp [copy, isNew_old h]
+
+theorem deps_copy_old (m : Mode) (W : World) (r : Nat) {s : Nat} (h : s < W.nsym) :
+    (copy m W r).deps s = W.deps s := by
+  simp [World.deps, links_copy_old m W r h, bounds_copy_old m W r h, init_copy_old m W r h]
+
+theorem name_copy_rho (m : Mode) (W : World) (r : Nat) {s : Nat} (h : s < W.nsym) :
+    (copy m W r).name (rho (findIn r W.trees).owned W.nsym s) = W.name s := by
   by_cases hm : s ∈ (findIn r W.trees).owned
   · rw [rho_mem hm]; simp [copy, isNew_shift hm]
-  · rw [rho_not_mem hm]; exact name_copy_old fx W r h
+  · rw [rho_not_mem hm]; exact name_copy_old m W r h
 
-theorem name_copy_rhoT (fx : Bool) (W : World) (r : Nat) {s : Nat} (h : s < W.nsym) :
-    (copy fx W r).name (rhoT fx (findIn r W.trees).owned W.nsym s) = W.name s := by
+theorem name_copy_rhoT (m : Mode) (fx : Bool) (W : World) (r : Nat) {s : Nat} (h : s < W.nsym) :
+    (copy m W r).name (rhoT fx (findIn r W.trees).owned W.nsym s) = W.name s := by
   unfold rhoT
   split
-  · exact name_copy_rho fx W r h
-  · exact name_copy_old fx W r h
+  · exact name_copy_rho m W r h
+  · exact name_copy_old m W r h
 
-theorem deps_copy_new (fx : Bool) (W : World) (r : Nat) {s : Nat}
+theorem links_copy_new (m : Mode) (W : World) (r : Nat) {s : Nat}
     (hm : s ∈ (findIn r W.trees).owned) :
-    (copy fx W r).deps (s + W.nsym) = (W.deps s).map (rhoT fx (findIn r W.trees).owned W.nsym) := by
+    (copy m W r).links (s + W.nsym) = (W.links s).map (rhoT m.dt (findIn r W.trees).owned W.nsym) := by
   simp [copy, isNew_shift hm]
 
-theorem iface_copy_old (fx : Bool) (W : World) (r : Nat) {s : Nat} (h : s < W.nsym) :
-    (copy fx W r).iface s = W.iface s := by
+theorem bounds_copy_new (m : Mode) (W : World) (r : Nat) {s : Nat}
+    (hm : s ∈ (findIn r W.trees).owned) :
+    (copy m W r).bounds (s + W.nsym) =
+      if m.dt then (W.bounds s).map (copyENode true (findIn r W.trees).owned W.nnode W.nsym)
+      else W.bounds s := by
+  simp [copy, isNew_shift hm]
+
+theorem init_copy_new (m : Mode) (W : World) (r : Nat) {s : Nat}
+    (hm : s ∈ (findIn r W.trees).owned) :
+    (copy m W r).init (s + W.nsym) =
+      (W.init s).map (copyENode m.dt (findIn r W.trees).owned W.nnode W.nsym) := by
+  simp [copy, isNew_shift hm]
+
+theorem bounds_uses_copy_new (m : Mode) (W : World) (r : Nat) {s : Nat}
+    (hm : s ∈ (findIn r W.trees).owned) :
+    ((copy m W r).bounds (s + W.nsym)).uses =
+      (W.bounds s).uses.map (rhoT m.dt (findIn r W.trees).owned W.nsym) := by
+  rw [bounds_copy_new m W r hm]
+  cases hdt : m.dt
+  · simp [rhoT_false]
+  · simp [uses_map_ecopy]
+
+theorem deps_copy_new (m : Mode) (W : World) (r : Nat) {s : Nat}
+    (hm : s ∈ (findIn r W.trees).owned) :
+    (copy m W r).deps (s + W.nsym) = (W.deps s).map (rhoT m.dt (findIn r W.trees).owned W.nsym) := by
+  simp only [World.deps, links_copy_new m W r hm, bounds_uses_copy_new m W r hm, init_copy_new m W r hm,
+    uses_map_ecopy, List.map_append]
+
+theorem iface_copy_old (m : Mode) (W : World) (r : Nat) {s : Nat} (h : s < W.nsym) :
+    (copy m W r).iface s = W.iface s := by
   simp [copy, isNew_old h]
 
-theorem access_copy_old (fx : Bool) (W : World) (r : Nat) {i : Nat} (h : i < W.nif) :
-    (copy fx W r).access i = W.access i := by
+theorem access_copy_old (m : Mode) (W : World) (r : Nat) {i : Nat} (h : i < W.nif) :
+    (copy m W r).access i = W.access i := by
   have : ¬ W.nif ≤ i := by omega
   simp [copy, this]
 
-theorem iface_copy_new (fx : Bool) (W : World) (r : Nat) {s : Nat}
+theorem iface_copy_new (m : Mode) (W : World) (r : Nat) {s : Nat}
     (hm : s ∈ (findIn r W.trees).owned) :
-    (copy fx W r).iface (s + W.nsym) =
-      if W.freshIface s then W.iface s + W.nif else W.iface s := by
+    (copy m W r).iface (s + W.nsym) =
+      if ownIface m W s then W.iface s + W.nif else W.iface s := by
   simp [copy, isNew_shift hm]
 
 /-- the copy of a symbol has an interface with the same attributes: its own new object or the
 very object of the original -/
-theorem access_iface_copy_new (fx : Bool) (W : World) (r : Nat) {s : Nat}
+theorem access_iface_copy_new (m : Mode) (W : World) (r : Nat) {s : Nat}
     (hm : s ∈ (findIn r W.trees).owned) (hlt : W.iface s < W.nif) :
-    (copy fx W r).access ((copy fx W r).iface (s + W.nsym)) = W.access (W.iface s) := by
-  rw [iface_copy_new fx W r hm]
+    (copy m W r).access ((copy m W r).iface (s + W.nsym)) = W.access (W.iface s) := by
+  rw [iface_copy_new m W r hm]
   split
   · rename_i hfr
     simp only [copy]
     rw [if_pos (by simp; exact ⟨s, hm, hfr, rfl⟩)]
     simp
-  · exact access_copy_old fx W r hlt
+  · exact access_copy_old m W r hlt
 
 /-! ## `view` depends only on the names and dependencies it reads -/
 
@@ -193,22 +324,29 @@ theorem view_map_copy (W W' : World) (a b : Nat → Nat) (fx : Bool) (own : List
     (h1 : ∀ s ∈ F.syms, W'.name (a s) = W.name s)
     (h2 : ∀ s ∈ F.tsyms, W'.name (b s) = W.name s)
     (h3 : ∀ s ∈ F.owned, W'.name (a s) = W.name s ∧
-                          (W'.deps (a s)).map W'.name = (W.deps s).map W.name ∧
-                          W'.access (W'.iface (a s)) = W.access (W.iface s)) :
+                          (W'.links (a s)).map W'.name = (W.links s).map W.name ∧
+                          viewE W'.name (W'.bounds (a s)) = viewE W.name (W.bounds s) ∧
+                          viewE W'.name (W'.init (a s)) = viewE W.name (W.init s) ∧
+                          W'.access (W'.iface (a s)) = W.access (W.iface s))
+    (h4 : ∀ x ∈ F.attrs, W'.attrVal x = W.attrVal x) :
     view W' (F.map (copyNode fx own no so)) = view W F := by
   induction F with
   | nil => rfl
   | cons n k r ihk ihr =>
-    simp only [Forest.syms, Forest.tsyms, Forest.owned, List.mem_append] at h1 h2 h3
+    simp only [Forest.syms, Forest.tsyms, Forest.owned, Forest.attrs, List.mem_append] at h1 h2 h3 h4
     simp only [Forest.map, view]
     rw [ihk (fun s hs => h1 s (Or.inr (Or.inl hs))) (fun s hs => h2 s (Or.inr (Or.inl hs)))
-          (fun s hs => h3 s (Or.inr (Or.inl hs))),
+          (fun s hs => h3 s (Or.inr (Or.inl hs))) (fun s hs => h4 s (Or.inr (Or.inl hs))),
         ihr (fun s hs => h1 s (Or.inr (Or.inr hs))) (fun s hs => h2 s (Or.inr (Or.inr hs)))
-          (fun s hs => h3 s (Or.inr (Or.inr hs)))]
+          (fun s hs => h3 s (Or.inr (Or.inr hs))) (fun s hs => h4 s (Or.inr (Or.inr hs)))]
     congr 1
-    obtain ⟨id, kind, sym, tsym, table⟩ := n
+    obtain ⟨id, kind, sym, tsym, table, attr⟩ := n
     simp only [viewNode, copyNode, VNode.mk.injEq, true_and]
-    refine ⟨?_, ?_, ?_⟩
+    refine ⟨?_, ?_, ?_, ?_⟩
+    rotate_left 3
+    · cases attr with
+      | none => rfl
+      | some x => simp [h4 x (Or.inl (by simp))]
     · cases sym with
       | none => rfl
       | some s => simp [ha, h1 s (Or.inl (by simp))]
@@ -222,17 +360,20 @@ theorem view_map_copy (W W' : World) (a b : Nat → Nat) (fx : Bool) (own : List
         apply List.map_congr_left
         intro s hs
         have := h3 s (Or.inl (by simp [NodeRec.tab, hs]))
-        simp [ha, this.1, this.2.1, this.2.2]
+        simp [ha, this.1, this.2.1, this.2.2.1, this.2.2.2.1, this.2.2.2.2]
 
 theorem view_congr (W W' : World) (F : Forest)
     (h1 : ∀ s ∈ F.syms ++ F.tsyms ++ F.owned, W'.name s = W.name s)
-    (h3 : ∀ s ∈ F.owned, (W'.deps s).map W'.name = (W.deps s).map W.name ∧
-                          W'.access (W'.iface s) = W.access (W.iface s)) :
+    (h3 : ∀ s ∈ F.owned, (W'.links s).map W'.name = (W.links s).map W.name ∧
+                          viewE W'.name (W'.bounds s) = viewE W.name (W.bounds s) ∧
+                          viewE W'.name (W'.init s) = viewE W.name (W.init s) ∧
+                          W'.access (W'.iface s) = W.access (W.iface s))
+    (h4 : ∀ x ∈ F.attrs, W'.attrVal x = W.attrVal x) :
     view W' F = view W F := by
   induction F with
   | nil => rfl
   | cons n k r ihk ihr =>
-    simp only [Forest.syms, Forest.tsyms, Forest.owned, List.mem_append] at h1 h3
+    simp only [Forest.syms, Forest.tsyms, Forest.owned, Forest.attrs, List.mem_append] at h1 h3 h4
     simp only [view]
     rw [ihk (fun s hs => h1 s (by
               simp only [List.mem_append] at hs
@@ -240,18 +381,22 @@ theorem view_congr (W W' : World) (F : Forest)
               · exact Or.inl (Or.inl (Or.inr (Or.inl hs)))
               · exact Or.inl (Or.inr (Or.inr (Or.inl hs)))
               · exact Or.inr (Or.inr (Or.inl hs))))
-          (fun s hs => h3 s (Or.inr (Or.inl hs))),
+          (fun s hs => h3 s (Or.inr (Or.inl hs))) (fun s hs => h4 s (Or.inr (Or.inl hs))),
         ihr (fun s hs => h1 s (by
               simp only [List.mem_append] at hs
               rcases hs with (hs | hs) | hs
               · exact Or.inl (Or.inl (Or.inr (Or.inr hs)))
               · exact Or.inl (Or.inr (Or.inr (Or.inr hs)))
               · exact Or.inr (Or.inr (Or.inr hs))))
-          (fun s hs => h3 s (Or.inr (Or.inr hs)))]
+          (fun s hs => h3 s (Or.inr (Or.inr hs))) (fun s hs => h4 s (Or.inr (Or.inr hs)))]
     congr 1
-    obtain ⟨id, kind, sym, tsym, table⟩ := n
+    obtain ⟨id, kind, sym, tsym, table, attr⟩ := n
     simp only [viewNode, VNode.mk.injEq, true_and]
-    refine ⟨?_, ?_, ?_⟩
+    refine ⟨?_, ?_, ?_, ?_⟩
+    rotate_left 3
+    · cases attr with
+      | none => rfl
+      | some x => simp [h4 x (Or.inl (by simp))]
     · cases sym with
       | none => rfl
       | some s => simp [h1 s (Or.inl (Or.inl (Or.inl (by simp))))]
@@ -264,8 +409,9 @@ theorem view_congr (W W' : World) (F : Forest)
         simp only [Option.map_some, Option.some.injEq]
         apply List.map_congr_left
         intro s hs
-        have hm : s ∈ NodeRec.tab ⟨id, kind, sym, tsym, some l⟩ := by simp [NodeRec.tab, hs]
-        simp [h1 s (Or.inr (Or.inl hm)), (h3 s (Or.inl hm)).1, (h3 s (Or.inl hm)).2]
+        have hm : s ∈ NodeRec.tab ⟨id, kind, sym, tsym, some l, attr⟩ := by simp [NodeRec.tab, hs]
+        simp [h1 s (Or.inr (Or.inl hm)), (h3 s (Or.inl hm)).1, (h3 s (Or.inl hm)).2.1,
+          (h3 s (Or.inl hm)).2.2.1, (h3 s (Or.inl hm)).2.2.2]
 
 /-! ## edits that do not address a forest leave it alone -/
 
